@@ -12,6 +12,10 @@ sees the same tree for all spellings:
     np.power(a, b) / pow(a, b)                                  ->  a ** b
     e * e   (same simple operand)                               ->  e ** 2
     not x in y                                                  ->  x not in y
+    X[::-1]                                                     ->  np.flip(X, axis=0)
+    v * np.ones(n) / np.ones(n) * v                             ->  np.full(n, v);      np.full(1, v) -> np.array([v])
+    np.concatenate((np.ravel(a), np.ravel(b)))   (no axis)      ->  np.concatenate((a, b))
+    np.newaxis -> None;   X.T -> np.transpose(X);   dtype=float dropped from array constructors
 
 Nothing here depends on which spelling the pinned tree uses; the rules are written against the right-hand column.
 """
@@ -22,6 +26,7 @@ import ast
 REDUCERS = {"sum", "all", "any", "min", "max", "mean", "prod"}
 MODULE_NAMES = {"np", "numpy", "math", "scipy", "special", "integrate", "optimize", "scipylinalg", "os", "sys", "logging", "warnings"}
 ATTR_FUNCS = {"ndim", "size", "shape"}
+ARRAY_CTORS = {"full", "array", "asarray", "asanyarray", "zeros", "ones", "empty", "zeros_like", "ones_like", "empty_like", "full_like"}
 
 
 def _is_np(node: ast.AST, name: str) -> bool:
@@ -67,6 +72,14 @@ class Canon(ast.NodeTransformer):
                 new = ast.BinOp(left=node.args[0], op=ast.Pow(), right=node.args[1])
         elif isinstance(f, ast.Name) and f.id == "pow" and len(node.args) == 2 and not node.keywords:
             new = ast.BinOp(left=node.args[0], op=ast.Pow(), right=node.args[1])
+        if new is None and isinstance(f, ast.Attribute) and isinstance(f.value, ast.Name) and f.value.id in ("np", "numpy"):
+            if f.attr in ARRAY_CTORS and any(k.arg == "dtype" and isinstance(k.value, ast.Name) and k.value.id == "float" for k in node.keywords):
+                node.keywords = [k for k in node.keywords if not (k.arg == "dtype" and isinstance(k.value, ast.Name) and k.value.id == "float")]
+            if f.attr == "full" and len(node.args) == 2 and not node.keywords and isinstance(node.args[0], ast.Constant) and node.args[0].value == 1:
+                new = ast.Call(func=ast.Attribute(value=f.value, attr="array", ctx=ast.Load()), args=[ast.List(elts=[node.args[1]], ctx=ast.Load())], keywords=[])
+            elif (f.attr == "concatenate" and len(node.args) == 1 and not node.keywords and isinstance(node.args[0], (ast.Tuple, ast.List))
+                  and node.args[0].elts and all(isinstance(x, ast.Call) and _is_np(x.func, "ravel") and len(x.args) == 1 and not x.keywords for x in node.args[0].elts)):
+                node.args[0].elts = [x.args[0] for x in node.args[0].elts]
         if new is None:
             return node
         ast.copy_location(new, node)
@@ -75,6 +88,14 @@ class Canon(ast.NodeTransformer):
 
     def visit_BinOp(self, node: ast.BinOp) -> ast.AST:
         self.generic_visit(node)
+        if isinstance(node.op, ast.Mult):
+            for ones, other in ((node.left, node.right), (node.right, node.left)):
+                if (isinstance(ones, ast.Call) and _is_np(ones.func, "ones") and len(ones.args) == 1 and not ones.keywords
+                        and not (isinstance(other, ast.Call) and _is_np(other.func, "ones"))):
+                    new = ast.Call(func=ast.Attribute(value=ones.func.value, attr="full", ctx=ast.Load()), args=[ones.args[0], other], keywords=[])
+                    ast.copy_location(new, node)
+                    ast.fix_missing_locations(new)
+                    return new
         if isinstance(node.op, ast.Mult) and _simple(node.left) and _simple(node.right) and ast.dump(node.left) == ast.dump(node.right):
             new = ast.BinOp(left=node.left, op=ast.Pow(), right=ast.Constant(value=2))
             ast.copy_location(new, node)
@@ -96,6 +117,33 @@ class Canon(ast.NodeTransformer):
         if (isinstance(node.op, ast.Not) and isinstance(node.operand, ast.Compare) and len(node.operand.ops) == 1
                 and isinstance(node.operand.ops[0], ast.In)):
             new = ast.Compare(left=node.operand.left, ops=[ast.NotIn()], comparators=node.operand.comparators)
+            ast.copy_location(new, node)
+            ast.fix_missing_locations(new)
+            return new
+        return node
+
+
+    def visit_Subscript(self, node: ast.Subscript) -> ast.AST:
+        self.generic_visit(node)
+        sl = node.slice
+        if (isinstance(node.ctx, ast.Load) and isinstance(sl, ast.Slice) and sl.lower is None and sl.upper is None and sl.step is not None
+                and isinstance(sl.step, ast.UnaryOp) and isinstance(sl.step.op, ast.USub) and isinstance(sl.step.operand, ast.Constant) and sl.step.operand.value == 1):
+            new = ast.Call(func=ast.Attribute(value=ast.Name(id="np", ctx=ast.Load()), attr="flip", ctx=ast.Load()), args=[node.value],
+                           keywords=[ast.keyword(arg="axis", value=ast.Constant(value=0))])
+            ast.copy_location(new, node)
+            ast.fix_missing_locations(new)
+            return new
+        return node
+
+    def visit_Attribute(self, node: ast.Attribute) -> ast.AST:
+        self.generic_visit(node)
+        if isinstance(node.ctx, ast.Load):
+            if node.attr == "newaxis" and isinstance(node.value, ast.Name) and node.value.id in ("np", "numpy"):
+                new: ast.AST = ast.Constant(value=None)
+            elif node.attr == "T" and not (isinstance(node.value, ast.Name) and node.value.id in MODULE_NAMES):
+                new = ast.Call(func=ast.Attribute(value=ast.Name(id="np", ctx=ast.Load()), attr="transpose", ctx=ast.Load()), args=[node.value], keywords=[])
+            else:
+                return node
             ast.copy_location(new, node)
             ast.fix_missing_locations(new)
             return new
